@@ -58,8 +58,10 @@ let rec spec_of = function
   | L [A "MPRZ"; I n; I t] -> SMPRZ (nat_of_int n, nat_of_int t)
   | L [A "PauliZ"; I n] -> SPauliZ (nat_of_int n)
   | L [A "RSU3"; I i] -> SRSU3 (nat_of_int i)
-  | L [A "CKM"] -> SCKM
-  | L [A "CKMdg"] -> SCKMdg
+  | L [A "CKM"] -> SCKM false
+  | L [A "CKMdg"] -> SCKMdg false
+  | L [A "CKMfixed"] -> SCKM true
+  | L [A "CKMdgfixed"] -> SCKMdg true
   | L [A "ctrl"; s; I nc; cr; cl] -> SControlled (spec_of s, nat_of_int nc, cradix cr, clevels cl)
   | L [A "dagger"; s] -> SDagger (spec_of s)
   | L [A "power"; s; I k] -> SPower (spec_of s, z_of_int k)
